@@ -219,6 +219,9 @@ var fmtFileSeeds = []string{
 
 var fmtSeeds = []string{
 	"{! leaf( s ) }",
+	// the same statement in a one-line and in a multi-line {{ }} block of one file (and of the next file of the run)
+	"{{ _ = n }}\n\t<p>a</p>\n\t{{\n\t\t_ = n\n\t}}\n\t<p>b</p>",
+	"{{\n\t\t_ = n\n\t}}\n\t<p>c</p>",
 	"<small\n\t\tdata-m={\n\t\t\ts,/*\tc1\n c2  */\n\t\t}\n\t>x</small>",
 	"@leaf(s +\n\n\n\t\t`r1\nr2\n\tr3`)",
 	"{! leaf(s +\n\n\n\t\t`r1\nr2`) }",
